@@ -2063,8 +2063,11 @@ class Engine:
             if isinstance(fr.gen_out, _GenOut):
                 fr.gen_out.extend_sym(self, val)
                 return None
-            if not fr.gen_out and isinstance(val, (SSeq, _GenOutIter)):
-                fr.gen_out = _GenOut(self, [], ("seq", "tuple", ops.seq_elem(val) if isinstance(val, SSeq) else "int"))
+            if isinstance(fr.gen_out, list) and isinstance(val, (SSeq, _GenOutIter)):
+                # what was yielded so far (concrete items) becomes the prefix of a symbolic accumulator
+                v2 = val.seq if isinstance(val, _GenOutIter) else val
+                elem = ops.seq_elem(v2) if isinstance(v2, SSeq) else "int"
+                fr.gen_out = _GenOut(self, list(fr.gen_out), ("seq", "tuple", elem))
                 fr.gen_out.extend_sym(self, val)
                 return None
             raise Unsupported("yield from a symbolic iterable")
